@@ -76,7 +76,12 @@ def run(chk: framework.Check):
                 if hd != hf:
                     chk.violation(f"C04 oracle: hook creation differs (detailed={hd}, fast={hf}) [{cfg_name(cd)} {terms.ty_sx(cty)}]",
                                   {"world": w, "cfg": cd, "ty": cty, "op": "genok"})
+        if len(chk.violations) >= 8:
+            break       # enough failing inputs recorded: stop exploring (a broken cattrs can also be arbitrarily slow)
         for ty, x, xv in streams.typed_values(chk, G, S, w, n_types=4, n_values=1):
+            if S.stats.get("call-timeout"):
+                chk.note("world-left-after-call-timeout")
+                break
             has_union = bool(gen.reach_unions(w, ty))
             for base in BASES:
                 cd = dict(base, detailed=True)
@@ -97,6 +102,9 @@ def run(chk: framework.Check):
                 plist = list(streams.payloads(chk, G, S, w, u[1]))
                 plist += initfalse_payloads(chk, G, S, w, ty, u[1])
                 plist += list(streams.validator_payloads(chk, G, S, w, ty, u[1]))
+                # missing parts at every depth (a nested class / TypedDict payload short of a key: the inner hook fails
+                # with the exception class the templates themselves use for absent keys)
+                plist += streams.deep_missing_key_payloads(chk, G, S, w, cd, ty, u[1])
                 for kind, p, pv in plist:
                     rd = S.impl_st(cd, ty, p, payload=pv)
                     rf = S.impl_st(cf, ty, p, payload=pv)
@@ -147,6 +155,8 @@ def run(chk: framework.Check):
     ext.run_c04(chk, 150 if chk.tier == "quick" else 1500)
     # implementation-only: hooks built with generator options (use_alias, include_init_false, override(omit=False / rename))
     ext.run_genopts(chk, 300 if chk.tier == "quick" else 3000, "C04")
+    # implementation-only: use -> register (func / factory / strategy APIs) -> use histories on twin converters
+    ext.run_c04_histories(chk, 60 if chk.tier == "quick" else 600)
     # implementation-only: @define(init=False) classes with a hand-written __init__ (finding region noted, see the stream)
     ext.run_custom_init(chk, 40 if chk.tier == "quick" else 400)
     # implementation-only: Literal[...] over members of mix-in enums, position-wise equal literals in one process
